@@ -364,6 +364,36 @@ fn spawn_async_ao_list_in_task'''),
         ('second-stage-own-process-group', IN, 'if current_pipeline_index > 0 {\n                cmd_params.process_group_policy', 'if current_pipeline_index > 1 {\n                cmd_params.process_group_policy'),
         ('one-pipe-too-few', IN, 'for _ in 0..(pipeline_len - 1) {', 'for _ in 0..(pipeline_len - 2) {'),
     ],
+    'U4m': [
+        ('builtin-error-skips-hook', 'brush-core/src/commands.rs', '''        if let Some(post_execute) = self.post_execute {
+            let _ = post_execute(&mut shell);
+        }
+
+        let result = result?;
+
+        Ok(result.into())''', '''        let result = result?;
+
+        if let Some(post_execute) = self.post_execute {
+            let _ = post_execute(&mut shell);
+        }
+
+        Ok(result.into())'''),
+        ('function-path-hook-dropped', 'brush-core/src/commands.rs', '''        shell.update_last_arg_variable(last_arg);
+
+        if let Some(post_execute) = self.post_execute {
+            let _ = post_execute(&mut shell);
+        }
+
+        result
+    }
+
+    fn execute_via_external''', '''        shell.update_last_arg_variable(last_arg);
+
+        result
+    }
+
+    fn execute_via_external'''),
+    ],
     'U5': [
         ('sub-becomes-add', AR, 'Ok(left.wrapping_sub(right))', 'Ok(left.wrapping_add(right))'),
         ('lt-becomes-le', AR, 'Ok(bool_to_i64(left < right))', 'Ok(bool_to_i64(left <= right))'),
